@@ -114,6 +114,9 @@ const bad = "bad-op"
 
 func exec(line string) hx.Result {
 	f := strings.Fields(line)
+	if len(f) > 0 && f[0] == "R" {
+		return execServer(line, f)
+	}
 	if len(f) != 5 || f[0] != "H" {
 		return hx.Result{Out: bad}
 	}
@@ -391,6 +394,36 @@ func exec(line string) hx.Result {
 	default:
 		res.Kind = "DIVERGE"
 	}
+	// monitors for the hypotheses of C34_impl_safe_partial: every sealing pool holds only genuine signatures for its
+	// stored versions (inv), every honest node signed blocks of at most one (proposer, version) (single)
+	inv, single := true, true
+	for _, v := range distinct {
+		for _, i := range v {
+			if !s.nodes[i].StrictNode() {
+				inv = false
+			}
+		}
+	}
+	signedBy := map[uint32]map[uint64]bool{}
+	for d := range s.revealed {
+		kh := strings.Split(d, ".")
+		k, _ := strconv.ParseUint(kh[0], 10, 32)
+		h, _ := strconv.ParseUint(kh[1], 10, 64)
+		if h%2 == 0 {
+			if signedBy[uint32(k)] == nil {
+				signedBy[uint32(k)] = map[uint64]bool{}
+			}
+			signedBy[uint32(k)][h/4] = true // (proposer, version)
+		}
+	}
+	for _, m := range signedBy {
+		if len(m) > 1 {
+			single = false
+		}
+	}
+	if wellFormed && nsealed > 0 {
+		res.Kind += fmt.Sprintf("[inv=%s,single=%s]", okS(inv), okS(single))
+	}
 	if forged && wellFormed {
 		res.Kind += "+byz-msgs"
 	}
@@ -418,6 +451,13 @@ func exec(line string) hx.Result {
 					cls = "forged-quorum:" + au.Class()
 				}
 			}
+		}
+		pvs := map[[2]uint64]bool{}
+		for _, k := range keys {
+			pvs[[2]uint64{uint64(k.p), k.ver}] = true
+		}
+		if inv && single && len(pvs) > 1 {
+			cls = "partial-theorem-refuted" // C34_impl_safe_partial says this cannot happen
 		}
 		if cls == "" {
 			switch {
@@ -481,6 +521,9 @@ func bh(p, ver int, fe bool) uint64 { return c31pool.BlockHashID(uint64(p), uint
 func fb(b bool) string              { return c31pool.B(b) }
 
 func genLine(r *hx.Rand, tier string, i int) string {
+	if r.Chance(15) {
+		return genServerLine(r)
+	}
 	g := &gen{r: r, faulty: map[int]bool{}}
 	g.N = 4
 	if r.Chance(25) {
@@ -778,6 +821,17 @@ func main() {
 		// honest round
 		"H 4 1 - P,0,1,0;P,2,1,0;P,3,1,0;P,1,1,0;E,0,1,0;E,2,1,0;E,3,1,0;DA,0;DA,1;DA,2;K,0;K,2;K,3;DA,3;DA,4;DA,5;S,0;S,1;S,2;S,3",
 		"H 4 1 3 -",
+		// the empty/full flag is outside the partial theorem (Props/C34.lean C34_partial_does_not_cover_forEmpty is the pool-level
+		// form; this is a stable global history of the known class)
+		"H 4 1 1 P,0,0,0;P,0,3,0;P,2,0,0;P,3,0,0;P,3,3,0;E,3,0,1;E,2,3,0;E,0,3,1;DA,0;DA,1;DA,2;K,0;K,3;K,2;DA,3;DA,4;DA,5;S,0;S,2;S,3",
+		// real Servers: the schedule of /verif/seeded/C34/demo (agreement on the unchanged tree)
+		"R 4 1 3 0,3 P,0,0,0;P,1,0,0;P,2,3,0;X,3,e,3,0,1,3,2;T,2,0;X,3,e,0,0,0,3,0;X,3,c,0,0,0,3,0;DO,1,0;X,3,e,0,0,0,3,1;X,3,c,0,0,0,3,1;P,2,0,0;DO,1,2;X,3,e,0,0,0,3,2;X,3,c,0,0,0,3,2",
+		// real Servers: Byzantine leader equivocates, each version backed by one commit with forged EndorsersSig
+		"R 4 1 3 3,0 P,0,3,0;P,1,3,1;X,3,fc,3,0,0,3,0;X,3,fc,3,1,0,3,1",
+		// real Servers: every signature genuine, honest 2nd proposer 0 also endorses Byzantine leader 3's block
+		"R 4 1 3 3,0 P,0,0,0;P,2,0,0;P,1,3,0;T,2,0;P,0,3,0;DO,0,1;X,3,e,0,0,0,3,2;T,2,4",
+		// real Servers: honest round
+		"R 4 1 - 1,2 P,0,1,0;P,1,1,0;P,2,1,0;P,3,1,0;DX,0;DX,1;DX,2;DX,3;DX,0;DX,1;DX,2;DX,3",
 	}
 	hx.Main(hx.Prop{
 		ID: "C34",
